@@ -1,6 +1,8 @@
 import RLV.Lemmas.DispatchKeys
 import RLV.Model.MLoop
 import RLV.Lemmas.Cpr
+import RLV.Lemmas.StreamLoop
+import RLV.Lemmas.NoSpin
 /-! C05 — The result does not depend on how the input is chunked or timed (property theorems).
 
 `dispatch` is the list-level dispatcher of Model/Bind.lean (`dispatchKeys_eq`: it is what
@@ -16,9 +18,21 @@ dispatched exactly as if they had arrived together with them. Hence cutting the 
 — inside an escape sequence, inside a multi-key bind — changes neither the commands selected nor the
 keys given to them.
 
+Proved as well, on the WHOLE CALL of the loop model (`MLoop.session`, the model compared with real
+Readline calls by `loopsess`), in the plain Emacs regime (`MLoop.Plain`: Emacs keymap, no local keymap or
+search mode active, no bind macro in the table, keys below 0x80) with commands that only log
+(`MLoop.Clog`: the bind run, the keys that called it, whether it accepts the line):
+`whole_call_does_not_depend_on_the_reads_partial` — for EVERY bind table, every starting stack and every
+two ways of cutting the same byte stream into reads (empty reads included), the binds run, in order, the
+keys given to each and the acceptance of the line are the same; `the_call_ends` gives the iterations.
+The proof goes through a reference run that knows the whole stream at once (`Stream.canon`): the
+remembered shorter bind that survives a wait (`dispatch_stale`) is the only state a cut leaves behind,
+and it is the one a clean dispatch computes again.
+
 Not proved (decided by sessions; two known findings): the commands that read their own arguments
-and the keys fed by macros interleaved with type-ahead; a lone ESC in a local keymap. The goroutine
-hand-off of cursor-position reports is outside the model. -/
+and the keys fed by macros interleaved with type-ahead; a lone ESC in a local keymap or in the Vi
+keymaps (excluded by the property); multi-byte characters cut between reads (C02 theorems and sessions).
+The goroutine hand-off of cursor-position reports is outside the model. -/
 namespace RLV.Props.C05
 open RLV
 
@@ -100,5 +114,48 @@ example :
     (dispatch tbl [27, 91] [] [] false Bind.none Bind.none).pfx = true ∧
     (dispatch tbl [27, 91, 65, 97] [] [] false Bind.none Bind.none).bind.action = "previous-history" ∧
     (dispatch tbl [27, 91, 65, 97] [] [] false Bind.none Bind.none).rest = [97] := by decide
+
+/-- C05 (whole call, plain Emacs regime): two ways of cutting the same bytes into reads give the same
+commands, with the same keys, and the same acceptance. `f1`, `f2` are iteration budgets with which both
+calls have ended (returned, or blocked in a read at the end of the input): `the_call_ends` provides them. -/
+theorem whole_call_does_not_depend_on_the_reads_partial (tbl : List (Seq × Bind)) (acc : Bind → Bool)
+    (s : MLoop.LS) (hP : MLoop.Plain tbl s) (hI : Stream.Inv tbl (MLoop.obs s)) (c1 c2 : List (List Nat))
+    (h1 : ∀ c ∈ c1, ∀ b ∈ c, b < 0x80) (h2 : ∀ c ∈ c2, ∀ b ∈ c, b < 0x80) (hflat : c1.flatten = c2.flatten)
+    (f1 f2 : Nat) (hf1 : (MLoop.session (MLoop.Clog acc) f1 c1 s).2 = true)
+    (hf2 : (MLoop.session (MLoop.Clog acc) f2 c2 s).2 = true) :
+    (MLoop.session (MLoop.Clog acc) f1 c1 s).1.log = (MLoop.session (MLoop.Clog acc) f2 c2 s).1.log ∧
+    (MLoop.session (MLoop.Clog acc) f1 c1 s).1.done = (MLoop.session (MLoop.Clog acc) f2 c2 s).1.done :=
+  MLoop.session_chunking tbl acc s hP hI c1 c2 h1 h2 hflat f1 f2 hf1 hf2
+
+/-- the logging commands are within what the no-spin theorem of C01 assumes of commands -/
+theorem logging_commands_are_well_behaved (acc : Bind → Bool) : MLoop.WB (MLoop.Clog acc) :=
+  { prefixed := fun _ _ _ => rfl,
+    keys := fun _ _ s => ⟨0, [], by simp [Keys.popN, Keys.feed, Keys.SameQueues, MLoop.Clog]⟩,
+    noEmpty := fun _ _ _ h => h }
+
+/-- ... so every call on a finite input ends: the budgets of the theorem above exist -/
+theorem the_call_ends (acc : Bind → Bool) (chunks : List (List Nat)) (s : MLoop.LS) (hg : MLoop.Good s) :
+    ∃ f, (MLoop.session (MLoop.Clog acc) f chunks s).2 = true :=
+  MLoop.session_ends (MLoop.Clog acc) (logging_commands_are_well_behaved acc) chunks s hg
+
+-- non-vacuity: the table { ESC [ A ↦ previous-history, a ↦ self-insert, RET ↦ accept-line } and the bytes
+-- ESC [ A a RET, delivered at once, byte by byte, and cut inside the escape sequence: the same three
+-- commands with the same keys, and the line accepted
+def tblEx : List (Seq × Bind) :=
+  [([27, 91, 65], ⟨"previous-history", false⟩), ([97], ⟨"self-insert", false⟩), ([13], ⟨"accept-line", false⟩)]
+def sEx : MLoop.LS := { eng := { mainTbl := tblEx, registered := ["previous-history", "self-insert", "accept-line"] } }
+def accEx (b : Bind) : Bool := b.action == "accept-line"
+example : MLoop.Plain tblEx sEx :=
+  { ltbl := rfl, isearch := rfl, emacs := rfl, nonInc := rfl, nomk := rfl, htbl := rfl, ne := rfl,
+    nomac := by decide, pm := rfl, am := rfl, ascii := by decide }
+example : Stream.Inv tblEx (MLoop.obs sEx) := ⟨fun _ => rfl, fun h => by cases h⟩
+example :
+    let r1 := MLoop.session (MLoop.Clog accEx) 20 [[27, 91, 65, 97, 13]] sEx
+    let r2 := MLoop.session (MLoop.Clog accEx) 20 [[27], [91], [65], [97], [13]] sEx
+    let r3 := MLoop.session (MLoop.Clog accEx) 20 [[27, 91], [], [65, 97, 13]] sEx
+    r1.2 = true ∧ r2.2 = true ∧ r3.2 = true ∧
+    r1.1.log = [("previous-history", [27, 91, 65]), ("self-insert", [97]), ("accept-line", [13])] ∧
+    r2.1.log = r1.1.log ∧ r3.1.log = r1.1.log ∧ r1.1.done = true ∧ r2.1.done = true ∧ r3.1.done = true := by
+  decide
 
 end RLV.Props.C05
